@@ -475,8 +475,11 @@ impl<const N: usize> Ex<N> {
         };
         let created: Vec<u32> = H.with(|h| h.borrow().step_created.clone());
         let mut msg: Option<String> = None;
+        let mut extra = 0;
         for (i, it) in items.iter().enumerate() {
             if it.class != Class::Live {
+                // storage whose element is gone (or never existed) is presented as occupied (C04)
+                extra = cls::GARBAGE;
                 msg = Some(format!("after the fault, buffer {x} position {i} holds id={} which is {:?}, not a live element", it.id, it.class));
                 break;
             }
@@ -499,7 +502,7 @@ impl<const N: usize> Ex<N> {
             }
         }
         if let Some(m) = msg {
-            self.fail(famcls, m);
+            self.fail(famcls | extra, m);
         }
     }
 
